@@ -12,6 +12,7 @@
 (*           aecs (key -> count), stats (<<>> or <<s>>)                    *)
 (*   bw      blocks written to the current output                          *)
 (*   hdr     parameter sets in the current output's header (0 = none yet)  *)
+(*   hb      the sets as they were when that header was written            *)
 (*   cur     blocks written to the current output, in order                *)
 (*   closed  outputs closed so far: [hdr, blocks, why]                     *)
 (*   rep     sum of the byte counts returned since the output was opened   *)
@@ -24,15 +25,18 @@ EXTENDS Records, Sequences
 CONSTANT XBug      \* "none", or a named deviation of the state machine (model self-tests)
 
 NoStats == <<>>
-EmptyBlock(i) == [bpi |-> i, qrs |-> <<>>, mms |-> <<>>, aecs |-> <<>>, stats |-> NoStats, et |-> <<>>]
+EmptyBlock(i, bp) == [bpi |-> i, bp |-> bp, qrs |-> <<>>, mms |-> <<>>, aecs |-> <<>>, stats |-> NoStats, et |-> <<>>]
+    \* bp: the block's OWN COPY of the parameter set it was armed with (CdnsBlock::m_block_parameters); a later
+    \* in-place edit of the preamble's set (get_active_block_parameters_ref) reaches a block only when it is re-armed
     \* et: earliest-time of the block in ticks (C17): set by the first timed record offered while the
     \* block holds no query/response or malformed message, lowered by any earlier timed record
     \* aecs: sequence of [key, n] in first-seen order (a bag; order is not part of the meaning)
 
-ExInit(pre, bps) == [pre |-> pre, bps |-> bps, active |-> 0, blk |-> EmptyBlock(0), bw |-> 0, hdr |-> 0,
+ExInit(pre, bps) == [pre |-> pre, bps |-> bps, active |-> 0,
+                     blk |-> EmptyBlock(0, IF Len(bps) > 0 THEN bps[1] ELSE <<>>), bw |-> 0, hdr |-> 0, hb |-> <<>>,
                      cur |-> <<>>, closed |-> <<>>, rep |-> 0]
 
-BP(ex)    == ex.bps[ex.blk.bpi + 1]
+BP(ex)    == ex.blk.bp
 Hints(ex) == HintsOf(BP(ex))
 ItemCount(b) == Len(b.qrs) + Len(b.aecs) + Len(b.mms)
 
@@ -47,7 +51,8 @@ Flush(ex) ==
     [s |-> [ex EXCEPT !.cur = IF wrote THEN Append(@, ex.blk) ELSE @,
                       !.bw  = IF wrote THEN @ + 1 ELSE @,
                       !.hdr = IF wrote /\ ex.bw = 0 THEN (IF XBug = "stale_header" THEN 2 ELSE Len(ex.bps)) ELSE @,
-                      !.blk = EmptyBlock(ex.active)],
+                      !.hb  = IF wrote /\ ex.bw = 0 THEN ex.bps ELSE @,
+                      !.blk = EmptyBlock(ex.active, ex.bps[ex.active + 1])],
      wrote |-> wrote]
 
 WithStats(b, st) == IF st = NoStats THEN b ELSE [b EXCEPT !.stats = st]
@@ -86,17 +91,19 @@ StepWB(ex) == Flush(ex)
 
 CloseOutput(ex, why) ==
     [ex EXCEPT !.closed = Append(@, [hdr |-> ex.hdr, blocks |-> ex.cur, why |-> why, pre |-> ex.pre,
-                                     bps |-> SubSeq(ex.bps, 1, ex.hdr), rep |-> ex.rep]),
-               !.cur = <<>>, !.bw = 0, !.hdr = 0, !.rep = 0]
+                                     bps |-> SubSeq(ex.hb, 1, ex.hdr), rep |-> ex.rep]),
+               !.cur = <<>>, !.bw = 0, !.hdr = 0, !.hb = <<>>, !.rep = 0]
 
 (* rotate_output(out, export): optional write_block, close, open the next output *)
 StepRot(ex, export) ==
     LET f == IF export THEN Flush(ex)
-             ELSE IF XBug = "rot_drops_block" THEN [s |-> [ex EXCEPT !.blk = EmptyBlock(ex.active)], wrote |-> FALSE]
+             ELSE IF XBug = "rot_drops_block" THEN [s |-> [ex EXCEPT !.blk = EmptyBlock(ex.active, ex.bps[ex.active + 1])], wrote |-> FALSE]
              ELSE [s |-> ex, wrote |-> FALSE]
     IN [s |-> CloseOutput(f.s, "rot"), wrote |-> f.wrote \/ f.s.bw > 0]
 
 StepAddBP(ex, bp) == [s |-> [ex EXCEPT !.bps = Append(@, bp)], idx |-> Len(ex.bps)]
+(* get_active_block_parameters_ref() = bp : the active set of the preamble is replaced in place *)
+StepEditBP(ex, bp) == [ex EXCEPT !.bps[ex.active + 1] = bp]
 StepSetBP(ex, i)  == IF i < Len(ex.bps) THEN [s |-> [ex EXCEPT !.active = i], ok |-> TRUE] ELSE [s |-> ex, ok |-> FALSE]
 StepDestroy(ex)   == CloseOutput(ex, "destroy")
 
@@ -111,7 +118,7 @@ AecSet(b) == {[f \in (DOMAIN b.aecs[i].key \cup {"count"}) |->
 (* ------------------------- model-level properties ---------------------- *)
 MaxOf(bp) == IF ~FitsInt(bp.max) THEN 1000000 ELSE IF ToInt(bp.max) = 0 THEN 1 ELSE ToInt(bp.max)
 BlockSizeOK(b, bps) ==
-    LET m == MaxOf(bps[b.bpi + 1]) IN
+    LET m == MaxOf(b.bp) IN
     /\ ItemCount(b) > 0
     /\ Len(b.qrs) <= m /\ Len(b.aecs) <= m /\ Len(b.mms) <= m
 C12_BlockSizes(ex) ==
